@@ -277,7 +277,7 @@ func roundTrip(period int, ops []MOp, seed int64) (vs []Viol) {
 					continue
 				}
 				for q := range want {
-					if !reflect.DeepEqual(want[q], es.ElementaryStreamDescriptors[q]) {
+					if !mc.SemEq(want[q], es.ElementaryStreamDescriptors[q]) { // nil and empty byte slices are the same value
 						ok = false
 					}
 				}
@@ -327,7 +327,7 @@ func checkC01(c *mc.Ctx) {
 		alpha  []MOp
 		depth  int
 	}
-	rtAlpha := []MOp{opAddB, opAddAuto, opRmA, opRmB, opPcrA, opPcrB, opPcrX, opTables,
+	rtAlpha := []MOp{opAddB, opAddC, opAddD, opAddAuto, opRmA, opRmB, opPcrA, opPcrB, opPcrX, opTables,
 		opDataA1, opDataAfit, opDataAs1, opDataAs2, opDataA3, opDataA17, opDataARAI, opDataAprv, opDataAnor,
 		opDataB1, opDataBRAI, opDataAuto, opDataX, opPktNull, opAddMany, opRmMany}
 	scens := []scen{
@@ -337,6 +337,8 @@ func checkC01(c *mc.Ctx) {
 		{"rt-AB-p40", 40, setupAB, rtAlpha, depth},
 		{"rt-ABT-p3", 3, setupABT, rtAlpha, depth},
 	}
+	// many PIDs removed and pending before a PID is removed and added again
+	scens = append(scens, scen{"rt-many-removed", 40, []MOp{opAddA, opPcrA, opDataA1, opAddMany, opRmMany}, []MOp{opRmA, opAddA, opAddAuto, opDataA1, opDataAs1, opDataAuto, opTables}, depth + 1})
 	// deeper histories over the core operations (configuration changes between writes)
 	coreAlpha := []MOp{opAddB, opAddAuto, opRmA, opRmB, opPcrB, opTables, opDataA1, opDataAs1, opDataARAI, opDataB1, opDataAuto}
 	scens = append(scens,
